@@ -120,7 +120,7 @@ def check_c09(case, stats=None):
                     if r.ret != 0:
                         bad("resubscription-refused", "repeating the subscription to topic %s on module %d returned %d (must be updated in place)" % (key, m, r.ret), r)
                     else:
-                        S_[(kind, key)] = dict(flags=fl)
+                        S_[(kind, key)] = dict(flags=fl, ud=ud_of(kind, c.args))
                 elif present:
                     if stats is not None:
                         stats["dup_key_" + kind] = stats.get("dup_key_" + kind, 0) + 1
@@ -187,7 +187,18 @@ def check_c09(case, stats=None):
             m = r.slot
             S_ = sets.get(m, {})
             if r.kind == "ps":
-                t = r.fields.get("topic", "-1:-").split(":", 1)[0]
+                # a one-shot subscription is gone once it fired: the user-data token of the event identifies the subscription
+                # it came through (a subscription that replaced it meanwhile - same topic, other flags - stays)
+                if r.fields.get("sys") == "0":
+                    try:
+                        ud = int(r.fields.get("ud", "0"))
+                    except ValueError:
+                        ud = 0
+                    if ud:
+                        for kk, e in list(S_.items()):
+                            if kk[0] == "sub" and (e.get("flags", 0) & SRC_ONESHOT) and e.get("ud") == ud:
+                                del S_[kk]
+                                break
                 continue
             from vf.model_events import _evt_key
             k = _evt_key(r)
